@@ -475,6 +475,13 @@ func extractLayout(prog *core.Program, fn *ssa.Function) []layPath {
 							p.OK = true
 						}
 					}
+					if ex, ok := ev.(*ssa.Extract); ok {
+						if call, ok := ex.Tuple.(*ssa.Call); ok {
+							if _, isC := consumeOf(prog, fn, call); isC && ex.Index == call.Common().Signature().Results().Len()-1 {
+								p.OK = true
+							}
+						}
+					}
 				}
 			}
 			if p.OK {
@@ -495,7 +502,7 @@ func extractLayout(prog *core.Program, fn *ssa.Function) []layPath {
 			pt.Events = append([]layEvent(nil), p.Events...)
 			pf.Events = append([]layEvent(nil), p.Events...)
 			pt.Guards = append(append([]string(nil), p.Guards...), g)
-			pf.Guards = append(append([]string(nil), p.Guards...), "!"+g)
+			pf.Guards = append(append([]string(nil), p.Guards...), negGuard(g))
 			walk(b.Succs[0], pt, off, seen)
 			walk(b.Succs[1], pf, off, seen)
 		default:
@@ -820,4 +827,42 @@ func vecBases(v bitVec) []string {
 	}
 	sort.Strings(out)
 	return out
+}
+
+// negGuard negates a printed comparison: !(a<=b) is written a>b, so that a test and its inverted form read alike.
+func negGuard(g string) string {
+	inner := g
+	for strings.HasPrefix(inner, "(") && strings.HasSuffix(inner, ")") && balanced(inner[1:len(inner)-1]) {
+		inner = inner[1 : len(inner)-1]
+	}
+	if strings.HasPrefix(inner, "!") {
+		return strings.TrimPrefix(inner, "!")
+	}
+	for _, pr := range [][2]string{{"<=", ">"}, {">=", "<"}, {"==", "!="}, {"!=", "=="}, {"<", ">="}, {">", "<="}} {
+		if i := strings.Index(inner, pr[0]); i > 0 && !strings.ContainsAny(inner, "&|") && strings.Count(inner, pr[0]) == 1 {
+			// make sure we matched the whole operator (not the '<' of '<=')
+			rest := inner[i+len(pr[0]):]
+			if strings.HasPrefix(rest, "=") {
+				continue
+			}
+			return inner[:i] + pr[1] + rest
+		}
+	}
+	return "!" + g
+}
+
+func balanced(s string) bool {
+	d := 0
+	for _, c := range s {
+		switch c {
+		case '(':
+			d++
+		case ')':
+			d--
+			if d < 0 {
+				return false
+			}
+		}
+	}
+	return d == 0
 }
